@@ -19,4 +19,17 @@ CHECKS = {
             dict(name="osfs", run="^TestOSFS$", quick=150, thorough=600, shards=4),
         ],
     ),
+    "C02": dict(
+        pkg="c02", level="exploration",
+        rule=("rapid state machine over 1..3 handle slots on one regular file (and a directory) present in the subject and, as *os.File twins, in a tmpfs directory: "
+              "open(any access x APPEND x TRUNC x CREATE x EXCL), read(n), readat(n,off), write, writeat, seek(any whence incl. invalid), truncate, stat, close; "
+              "n in 0..48 (5%: 600/5000), offsets/sizes from -2 to len+12. Per call n, bytes and success are compared with the os.File twin (EOF normalised as io.Reader/io.ReaderAt allow); "
+              "after every call the file's bytes (fresh ReadFile) and the offset of every open handle must agree. non-trivial = a read on one handle after a size-changing call on another handle, "
+              "or a call made after a failed call; distinct = fingerprint of the action history"),
+        assumptions=[OS_ASSUMPTION, "keyvalue.FS over a plain Store hands each handle a snapshot copy by design, so that subject runs the single-handle subset"],
+        legs=[
+            dict(name="mem", run="^TestMem$", quick=600, thorough=2500, shards=12),
+            dict(name="kvplain", run="^TestKVPlain$", quick=300, thorough=1500, shards=4),
+        ],
+    ),
 }
